@@ -90,6 +90,18 @@ def run(chk):
         progs.append((scopegen.ScopeProgram(rng).reference(), "scope"))
     for _ in range(200 if chk.thorough else 12):
         progs.append((failing_teardown_program(rng), "failing-teardown"))
+    # array sizes named by final ints whose value is only known at run time (a measurement, a call, a static): whether the front end
+    # accepts them or not, no size may be carried from one shot to the next
+    for _ in range(120 if chk.thorough else 10):
+        val = rng.choice(["1 + (int) r", "1 + (int) r + (int) r", "pick(r)", "2 - (int) r"])
+        where = rng.choice(["main", "fn"])
+        decl = "qubit q; h(q); bit r = measure q; final int n = %s; int[n] buf; buf[n - 1] = 7; echo(\"n = \" + n); echo(buf);" % val
+        if where == "main":
+            src = "function pick(bit b) -> int { return 1 + (int) b; }\nfunction main() -> void { %s }" % decl
+        else:
+            src = ("function pick(bit b) -> int { return 1 + (int) b; }\n@quantum function fill() -> void { %s }\n"
+                   "function main() -> void { fill(); fill(); }" % decl)
+        progs.append((src, "runtime-sized"))
     for _fn, o in load_corpus("C18"):
         progs.append((o["source"], "corpus"))
     lines = []
